@@ -197,7 +197,10 @@ def c_to_vec(it, recv, a):
     if isinstance(recv, VOpaque) and recv.name == "slice":
         lo, hi = recv.args[1], recv.args[2]
         known = hi != "end"
-        return VCoeffVec(S(canon(recv)), 1, 0, known_len=known)
+        v = VCoeffVec(S(canon(recv)), 1, 0, known_len=known)
+        if not known:
+            v.origin = (recv.args[0], lo)      # tail slice base[lo..]: its length is len(base) - lo, known only through len(base)
+        return v
     return recv
 
 
@@ -206,7 +209,11 @@ CONTRACTS[".to_vec"] = c_to_vec
 
 def out_prove(res, args, ctx):
     return {"transcript_log": list(ctx.log), "rng_draws": len(getattr(ctx, "rng", [])), "exits": list(ctx.exits), "result": res,
-            "quotient_inputs": list(getattr(ctx, "quotient_args", ["<quotient_poly::compute not called>"]))}
+            "quotient_inputs": list(getattr(ctx, "quotient_args", ["<quotient_poly::compute not called>"])),
+            # every slice / index operation on the quotient's coefficient vector must be justified by what the path knows about its
+            # length: `quotient_poly::compute` only bounds it from ABOVE (<= 7n; `Polynomial` drops trailing zeros), so the code has to
+            # establish `len >= 3n + 1` itself before cutting the four shares (C05 "never panics"; the contract side leaves none unmet)
+            "unmet_length_preconditions": [] if getattr(ctx, "is_contract", False) else list(getattr(ctx, "len_unmet", []))}
 
 
 def c_prove_inner(it, recv, a):
@@ -300,10 +307,60 @@ def c_prove_inner(it, recv, a):
     return VOk(VTuple([proof, pis]))
 
 
+DEGENERATE_RNG_SCENARIO = r"""
+#[test]
+fn __NAME__() {
+    // candidate failing input for an unmet length precondition in `prove_inner`: caller-scripted RNG streams in which some of the
+    // 14 blinding draws are zero (all of them / the three quotient blinders / the permutation blinders), on the smallest circuits
+    use crate::prelude::*;
+    use rand::{CryptoRng, RngCore, SeedableRng};
+    use rand::rngs::StdRng;
+    struct Scripted { inner: StdRng, k: usize, zero_mask: u32 }
+    impl RngCore for Scripted {
+        fn next_u32(&mut self) -> u32 { self.inner.next_u32() }
+        fn next_u64(&mut self) -> u64 { self.inner.next_u64() }
+        fn fill_bytes(&mut self, dest: &mut [u8]) {
+            let z = (self.zero_mask >> self.k.min(31)) & 1 == 1; self.k += 1;
+            if z { for b in dest.iter_mut() { *b = 0; } } else { self.inner.fill_bytes(dest) }
+        }
+        fn try_fill_bytes(&mut self, dest: &mut [u8]) -> Result<(), rand::Error> { self.fill_bytes(dest); Ok(()) }
+    }
+    impl CryptoRng for Scripted {}
+    #[derive(Default)] struct Empty;
+    impl Circuit for Empty { fn circuit(&self, _c: &mut Composer) -> Result<(), Error> { Ok(()) } }
+    #[derive(Default)] struct Small { a: BlsScalar }
+    impl Circuit for Small {
+        fn circuit(&self, c: &mut Composer) -> Result<(), Error> { let a = c.append_witness(self.a); c.component_range_bits::<8>(a); Ok(()) }
+    }
+    let mut rng = StdRng::seed_from_u64(1);
+    let pp = PublicParameters::setup(1 << 6, &mut rng).unwrap();
+    let (p1, v1) = Compiler::compile::<Empty>(&pp, b"replay").unwrap();
+    let (p2, v2) = Compiler::compile::<Small>(&pp, b"replay").unwrap();
+    let mut bad: Vec<String> = Vec::new();
+    for mask in [0x3fffu32, 0x7ff, 0x3800, 0x700, 0x600, 0xff] {
+        let mut r = Scripted { inner: StdRng::seed_from_u64(7), k: 0, zero_mask: mask };
+        match std::panic::catch_unwind(std::panic::AssertUnwindSafe(|| p1.prove(&mut r, &Empty))) {
+            Err(_) => bad.push(format!("empty circuit, zero draws {mask:#x}: prove PANICKED")),
+            Ok(Ok((proof, pi))) => if v1.verify(&proof, &pi).is_err() { bad.push(format!("empty circuit, zero draws {mask:#x}: proof of a satisfied circuit REJECTED")) },
+            Ok(Err(e)) => bad.push(format!("empty circuit, zero draws {mask:#x}: prove returned {e:?} on a satisfied circuit")),
+        }
+        let mut r = Scripted { inner: StdRng::seed_from_u64(7), k: 0, zero_mask: mask };
+        let c = Small { a: BlsScalar::from(5u64) };
+        match std::panic::catch_unwind(std::panic::AssertUnwindSafe(|| p2.prove(&mut r, &c))) {
+            Err(_) => bad.push(format!("8-bit range circuit, zero draws {mask:#x}: prove PANICKED")),
+            Ok(Ok((proof, pi))) => if v2.verify(&proof, &pi).is_err() { bad.push(format!("8-bit range circuit, zero draws {mask:#x}: proof of a satisfied circuit REJECTED")) },
+            Ok(Err(e)) => bad.push(format!("8-bit range circuit, zero draws {mask:#x}: prove returned {e:?} on a satisfied circuit")),
+        }
+    }
+    assert!(bad.is_empty(), "REPLAY-VIOLATION-REPRODUCED: {:?}", bad);
+}
+"""
+
 for ver in ("V2", "V3"):
-    unit(f"prover.prove_inner[{ver}]", PV, "Prover::prove_inner",
+    _u = unit(f"prover.prove_inner[{ver}]", PV, "Prover::prove_inner",
          [("self", sym("self")), ("rng", RNG), ("circuit", sym("circuit")), ("version", (lambda v=ver: VOpaque("PlonkVersion::" + v)))],
-         c_prove_inner, out_prove, trace_only=True, tracked=("transcript", "rng"))
+         c_prove_inner, out_prove, trace_only=True, tracked=("transcript", "rng"), consts=dict(CONSTS, __track_len=True))
+    _u.scenarios = {"unmet_length_preconditions": {"what": "Prover::prove on the empty circuit / an 8-bit range circuit with a caller-scripted RNG whose blinding draws are zero (masks 0x3fff, 0x7ff, 0x3800, 0x700, 0x600, 0xff over the 14 draws)", "src": DEGENERATE_RNG_SCENARIO}}
 
 
 # ------------------------------------------------------------------ lemma: prover and verifier share one Fiat-Shamir schedule
